@@ -362,7 +362,8 @@ class SymReal:
         c = ctx()
         k = c.fresh_int("modq")
         r = s.t - z3.ToReal(k) * d
-        c.assume(z3.And(r >= 0, r < d))
+        sc = s.t / d - z3.ToReal(k)          # scaled form: unit coefficient on the integer quotient
+        c.assume(z3.And(sc >= 0, sc < 1))
         c.note_mod(s.t, d, k)
         return SymReal(r)
 
@@ -401,6 +402,30 @@ class SymReal:
 
     def __repr__(s):
         return "SymReal(%s)" % s.t
+
+
+def _install_deferral():
+    """Binary operators of the scalar proxies return NotImplemented for array / float-element operands so that
+    python falls back to the reflected method of SArr / FElem."""
+    names = ["__add__", "__radd__", "__sub__", "__rsub__", "__mul__", "__rmul__", "__truediv__", "__rtruediv__",
+             "__floordiv__", "__rfloordiv__", "__mod__", "__rmod__", "__lt__", "__le__", "__gt__", "__ge__", "__eq__", "__ne__"]
+    for cls in (SymInt, SymReal):
+        for n in names:
+            f = cls.__dict__.get(n)
+            if f is None:
+                continue
+
+            def wrap(f):
+                def g(self, o):
+                    if type(o).__name__ in ("SArr", "FElem"):
+                        return NotImplemented
+                    return f(self, o)
+                g.__name__ = f.__name__
+                return g
+            setattr(cls, n, wrap(f))
+
+
+_install_deferral()
 
 
 def sym_round_half_even(t):
@@ -469,6 +494,8 @@ class Ctx:
         self.pc = []
         self.side = []             # range side-conditions of fresh values (assumed)
         self.solver = z3.Solver()
+        self.timeout_ms = timeout_ms
+        self.seed = seed
         self.solver.set("timeout", timeout_ms)
         self.solver.set("random_seed", seed)
         self.decisions = []
@@ -509,6 +536,21 @@ class Ctx:
             self.solver.add(e)
         r = self.solver.check()
         m = self.solver.model() if r == z3.sat else None
+        if r == z3.unknown and extra:
+            # nonlinear queries are sensitive to heuristics: retry in fresh solvers with other seeds
+            base = list(self.solver.assertions())
+            for attempt in (1, 2, 3):
+                s2 = z3.Solver()
+                s2.set("timeout", self.timeout_ms)
+                s2.set("random_seed", 7919 * attempt + self.seed)
+                s2.set("smt.arith.random_initial_value", True)
+                s2.add(*base)
+                r2 = s2.check()
+                self.stats["retries"] = self.stats.get("retries", 0) + 1
+                if r2 != z3.unknown:
+                    r = r2
+                    m = s2.model() if r2 == z3.sat else None
+                    break
         self.solver.pop()
         self.stats["queries"] = self.stats.get("queries", 0) + 1
         self.stats["solver_s"] = self.stats.get("solver_s", 0.0) + time.time() - t0
